@@ -311,9 +311,27 @@ class Agg:
             self.d[name] = (v, model)
 
 
-def path_model(ex, extra=None):
+def _gappy(ex):
+    """preferences for counterexample models, strongest first: a real gap before every block / between the blocks of a call / between
+    calls (contiguous blocks hide index-table defects when the history is replayed on the real build)"""
+    inner = []; outer = []; prev = None
+    for c in ex.user['calls']:
+        G, B, vlen = c['G'], c['B'], c['vlen']
+        if prev is not None: outer.append(G[0] > prev)
+        for i in range(len(G) - 1): inner.append(G[i + 1] - G[i] > B[i + 1] - B[i])
+        prev = G[-1] + (vlen - B[-1])
+    return [x for x in (inner + outer, inner, outer) if x]
+
+
+def path_model(ex, extra=None, prefer=False):
     """concrete history for replay: start, per call (G, B, vlen), windows"""
-    m = ex.model(extra)
+    m = None
+    if prefer or extra is not None:
+        for pref in _gappy(ex):
+            try: m = ex.model(z3.And(*(pref + ([extra] if extra is not None else []))))
+            except Exception: m = None
+            if m is not None: break
+    if m is None: m = ex.model(extra)
     if m is None: return None
     out = dict(start=smt.mval(m, ex.user['start']), calls=[], windows=[])
     for c in ex.user['calls']:
@@ -328,7 +346,7 @@ def check_claim(ex, agg, name, claim):
     """claim must hold on every model of the path condition"""
     if claim is True: agg.note(name, True); return True
     if claim is False:
-        agg.note(name, False, path_model(ex)); return False
+        agg.note(name, False, path_model(ex, prefer=True)); return False
     if ex.valid(claim): agg.note(name, True); return True
     pm = path_model(ex, z3.Not(claim))
     if pm is not None and z3.is_and(claim):
@@ -345,7 +363,7 @@ def check_path(ex, cfg, status, ret, agg):
     files, problems = build_files(ex)
     hard = [p for p in problems]
     agg.note('event trace is well formed (datasets/files/renames refer to objects this writer created)', not hard,
-             None if not hard else dict(problems=[p[:2] for p in hard], model=path_model(ex)))
+             None if not hard else dict(problems=[p[:2] for p in hard], model=path_model(ex, prefer=True)))
     if hard: return
     start = ex.user['start']
     esize = cfg.tsize * cfg.nsub * (2 if cfg.cplx else 1)
